@@ -177,10 +177,10 @@ func mergedRefsHarness(k int, alphabet string, kinds bool, suppress bool, needle
 }
 
 // Harness_C03_refs: the raw merged ref view is the newest-wins overlay in name order; seeking yields its suffix.
-// bounds: 1..3 stub tables, each any subset of size <=2 of the names {a,b,c} (so every multiplicity and order of equal keys across 3 tables occurs), value byte symbolic; seek key = every string of length 0..2
+// bounds: 1..4 stub tables, each any subset of size <=2 of the names {a,b,c} (so every multiplicity and order of equal keys across up to 4 tables occurs: with 4 tables equal keys meet as sibling heap slots), value byte symbolic; seek key = every string of length 0..2
 // covers: done
 func Harness_C03_refs() {
-	mergedRefsHarness(VerifIntRange(1, 3), "abc", false, false, symString(VerifIntRange(0, 2)))
+	mergedRefsHarness(VerifIntRange(1, 4), "abc", false, false, symString(VerifIntRange(0, 2)))
 }
 
 // Harness_C03_refs_deletions: deletion records hide older records; the stack view drops them, the raw view shows them.
@@ -258,12 +258,12 @@ func Harness_C03_logs_deletions() {
 }
 
 // Harness_C03_heap: the priority queue always hands out a minimum (key order, newest table first among equal keys).
-// bounds: every sequence of up to 5 add/remove operations (thorough 6) with 1-byte symbolic keys and table indices 0..3
+// bounds: every sequence of up to 6 add/remove operations (thorough 7) with 1-byte symbolic keys and table indices 0..3
 // covers: done
 func Harness_C03_heap() {
 	var pq mergedIterPQueue
 	var model []pqEntry
-	steps := 5 + VerifTier()
+	steps := 6 + VerifTier()
 	for s := 0; s < steps; s++ {
 		if len(model) > 0 && VerifChoose(2) == 1 {
 			e := pq.remove()
